@@ -169,3 +169,18 @@ package rlp
 // the reflection-driven encoder only reads its argument (assumed; its type cache is keyed by a struct and outside the subset)
 //@ func EncodeToBytes   trusted
 //@   modifies nothing
+
+// ---------------------------------------------------------------------------------------------------------------------
+// C14 "no trailing bytes": DecodeBytes accepts an input only if the value it decoded is all of it.  The reflection-driven
+// Stream.Decode is assumed (it consumes some of the reader's bytes); the reader's unread length is a ghost gh("left", reader),
+// bytes.NewReader / Reader.Len are assumed to be views of it (stdlib contracts), and a Stream remembers its source (gh "src").
+//@ func NewStream   trusted
+//@   modifies nothing
+//@   ensures result != nil && fresh(result) && gh("src", ref(result)) == ref(r)
+//@ func (*Stream).Decode   trusted
+//@   modifies allbut("src", "readerFor")
+//@   ensures gh("left", gh("src", ref(s))) >= 0 && gh("left", gh("src", ref(s))) <= old(gh("left", gh("src", ref(s))))
+
+//@ func DecodeBytes
+//@   props C14
+//@   ensures result == nil ==> gh("left", gh("readerFor", arrayOf(b))) == 0
